@@ -9,6 +9,8 @@
 -/
 import PercevalModel.Proto
 import PercevalModel.Model.C19
+import PercevalModel.Model.C19TW
+import PercevalModel.Model.C19Crash
 
 open Lean PM PM.Proto PM.C19
 
@@ -263,9 +265,18 @@ def handleHistory (j : Json) : Json :=
   | .ok (v, dir, ops) =>
     let s0 := create v dir
     let r := runHistory v s0 ops
-    Json.mkObj [("init", Json.mkObj (snapshot v s0)), ("steps", Json.arr r.2.toArray),
+    -- optional "caa": g — the process dies right after the server answered `accept g` to the request at which the
+    -- history's last operation ran out of answers (`crashAfterAnswer`): identifiers in the file, identifiers issued
+    let caa : List (String × Json) :=
+      match optKey j "caa" with
+      | some (.num n) =>
+        let c := crashAfterAnswer r.1 n.mantissa.toNat
+        [("caa", Json.mkObj [("disk_ids", toJson ((c.disk.getD []).filterMap (·.id))), ("issued", toJson c.issued),
+                             ("disk_same", toJson (decide (c.disk = r.1.disk)))])]
+      | _ => []
+    Json.mkObj ([("init", Json.mkObj (snapshot v s0)), ("steps", Json.arr r.2.toArray),
                 ("sent", Json.arr (r.1.sent.map sentJ).toArray),
-                ("issued", toJson r.1.issued), ("retired", toJson r.1.retired)]
+                ("issued", toJson r.1.issued), ("retired", toJson r.1.retired)] ++ caa)
 
 /-! group files of one directory: {"ns": [{"op":"open","n":1,"now":5}, {"op":"save","n":1,"data":2,"now":6},
    {"op":"has","n":1}, {"op":"list"}, {"op":"delete","n":1}, {"op":"delete_all"},
@@ -300,10 +311,42 @@ def handleNs (j : Json) : Json :=
   | .error e => errJson e
   | .ok ops => Json.mkObj [("obs", Json.arr ((PM.SM.run (NS.step NS.real) [] ops).2.map nsObsJ).toArray)]
 
+/-! torn writes: {"tw": {"old": null|"text", "new": "text", "impl": "inPlace"|"viaTemp", "cuts": [c, …]}} →
+   {"accepts_new": b, "ends_black": b, "out": ["fresh" | "raises" | {"loaded": {"old": b, "new": b}}, …]}
+   (`out[i]` = what `JobGroup(name)` does with the file left by a process that stops after `cuts[i]` events of the
+   write; `loaded` says which of the two texts the file is) -/
+def textOf (s : String) : TW.Text := s.toList.map Char.toNat
+
+def handleTw (j : Json) : Json :=
+  match (do
+    let old ← (match (← reqKey j "old") with
+               | .null => pure none
+               | v => do pure (some (textOf (← v.getStr?))) : Except String (Option TW.Text))
+    let new := textOf (← (← reqKey j "new").getStr?)
+    let impl ← (match (← (← reqKey j "impl").getStr?) with
+                | "inPlace" => pure TW.WriteImpl.inPlace
+                | "viaTemp" => pure TW.WriteImpl.viaTemp
+                | s => throw s!"bad impl {s}" : Except String TW.WriteImpl)
+    let cuts ← (← (← reqKey j "cuts").getArr?).toList.mapM (·.getNat?)
+    pure (old, new, impl, cuts) : Except String (Option TW.Text × TW.Text × TW.WriteImpl × List Nat)) with
+  | .error e => errJson e
+  | .ok (old, new, impl, cuts) =>
+    let outJ (o : TW.Opened) : Json :=
+      match o with
+      | .fresh => .str "fresh"
+      | .raises => .str "raises"
+      | .loaded t => Json.mkObj [("loaded", Json.mkObj [("old", toJson (decide (some t = old))),
+                                                        ("new", toJson (decide (t = new)))])]
+    Json.mkObj [("accepts_new", toJson (TW.accepts new)), ("ends_black", toJson (TW.endsBlack new)),
+                ("out", Json.arr ((cuts.map fun c => outJ (TW.reopen (TW.fileAt impl old new c))).toArray))]
+
 def handle (j : Json) : Json :=
   match optKey j "fs" with
   | some ops => handleFs ops
   | none =>
+    match optKey j "tw" with
+    | some r => handleTw r
+    | none =>
     match optKey j "ns" with
     | some ops => handleNs ops
     | none => handleHistory j
